@@ -7,6 +7,33 @@ CHECKS = {
  "C01": ("exploration", "bounded-exhaustive enumeration (shape x gap x sign x mode product) against an exact big-integer reference model",
          "Every pair from the coefficient-shape alphabet at every exponent gap of the gap alphabet, all sign combinations, Add and Sub, all six modes, plus decision-table drive of guard/sticky cells, cohort cancellation, range ends and DefaultRoundingMode sweep; each result compared with the exactly rounded sum.",
          "Exhaustive over shapes, not over all 2^128 digit values; trusts math/big and the independent BID decoder; model bound to the repository's Add/Sub vectors on every run."),
+ "C02": ("exploration", "bounded-exhaustive enumeration (shape x shape, small integers, divisor shapes, range windows) against exact big-integer/rational reference model",
+         "Every pair of coefficient shapes, every small integer multiplier/divisor up to the bound, long-division divisor shapes, every result decade in windows around the underflow and overflow thresholds, zeros, all sign combinations, Mul and Quo, six modes, DefaultRoundingMode sweep; compared with the exactly rounded product/quotient (tiny rule, overflow rule).",
+         "Exhaustive over shapes, not digit values; trusts math/big and the independent decoder; model bound to the repository's Mul/Quo vectors on every run."),
+ "C03": ("exploration", "bounded-exhaustive enumeration (shape x shape x gap incl. gaps to 12287) against big-integer truncated division",
+         "Every pair of coefficient shapes at every exponent gap of the alphabet (quotients of up to 12k digits for the huge gaps), signs, six modes, plus the special-operand table; quotient = trunc(x/y) (rounded only if it does not fit), remainder exact with the sign of x.",
+         "Sign of a zero quotient of finite operands is not pinned by the property and not checked; model bound to the repository's QuoRem vectors."),
+ "C04": ("exploration", "bounded-exhaustive pair/triple enumeration against the exact order",
+         "All shape pairs at all gaps and signs, arm-targeted near-equal pairs for every gap 0..35 (equal values in different cohorts, values differing in one dropped digit), special table, predicates on every cohort member and zero exponent, explicit triples; every answer of Cmp/CmpAbs/Equal/Compare/Min/Max/IsZero/Sign compared with the exact order.",
+         "Exhaustive over shapes and gaps, not over all digit values."),
+ "C08": ("exploration", "bounded-exhaustive enumeration (shape x exponent x every cutting dp x mode) against exact quantisation",
+         "Every shape at every exponent position with every dp that cuts through or borders its digits, extreme dp values, six modes, both signs; Round/Ceil/Floor and the package functions; idempotence re-applied on every result.",
+         "When the rounded multiple is not a member the oracle expects Inf; model bound to the repository's Round/Ceil/Floor vectors."),
+ "C09": ("exploration", "bounded-exhaustive enumeration (all binade exponents x mantissa shapes; shapes x all decimal exponents in the float range) decided exactly on rationals",
+         "FromFloat64/32 for every float exponent and mantissa shape against exact m*2^e rounded nearest-even, round trips (thorough: all 2^32 float32 patterns), Float64/Float32 adjacency decided on exact rationals for every decimal exponent -400..330, halfway cases, Float at ten precisions, FromFloat tolerance.",
+         "Default rounding mode only; FromFloat tolerance relaxed below 1e-6143 where the format cannot carry 33 digits."),
+ "C10": ("exploration", "bounded-exhaustive enumeration against big.Int/big.Rat",
+         "Machine integer bounds and powers, FromInt for K*10^k (k up to 6200) with ties and neighbours, integer conversions at every type bound with fractions in every cohort, Rat round trip over shapes x exponents, FromRat over shape pairs (correct rounding) and big operands (tolerance).",
+         "Default rounding mode only; FromRat tolerance relaxed below 1e-6143."),
+ "C11": ("exploration", "bounded-exhaustive enumeration (int64 shapes x every exponent -7000..7000; shapes x boundary-landing shifts) against exact scaling",
+         "New over int64 shapes and every exponent plus int extremes; Ldexp over shapes, positions and every shift landing near the range ends (every shift in -12400..12400 for a subset); Frexp invariants and Ldexp(Frexp(d)) over shapes x exponents; specials unchanged.",
+         "Default rounding mode only (the property names nearest-even)."),
+ "C12": ("exploration", "exhaustive enumeration of all 2^17 top-bit values x low-bit shapes against an independent IEEE 754-2008 BID codec",
+         "Every sign/combination/exponent/special prefix with every low-bit shape: Unmarshal/Marshal identity, the library's reading (Decompose, predicates) equals the independent decoder's, composed values marshal to the independent encoder's bytes, all slice lengths 0..64.",
+         "Low 111 bits are covered by shapes, not exhaustively; the independent codec is written from the standard."),
+ "C14": ("exploration", "bounded-exhaustive enumeration against exact representability on big integers",
+         "Decompose/Compose round trip over shapes x exponents x buffers; Compose of K*10^z (z to 120, all three size paths) with leading zeros at exponent windows and int32 extremes, all 256 forms; success iff exactly representable.",
+         "Coefficients are shape-based."),
 }
 def main():
     props = [json.loads(l) for l in open("properties.jsonl")]
